@@ -110,8 +110,10 @@ def run(mod, tier, seed, replay=None):
         hits = coqrun.grep_gate()
         if hits:
             raise coqrun.CoqError(f"forbidden constructs in the development: {hits[:5]}")
-        for pm in mod.PROPS:
-            proof_rows += [dict(r, module=pm) for r in coqrun.check_props(pm)]
+        from concurrent.futures import ThreadPoolExecutor
+        with ThreadPoolExecutor(max_workers=8) as ex:
+            for pm, rows in zip(mod.PROPS, ex.map(coqrun.check_props, mod.PROPS)):
+                proof_rows += [dict(r, module=pm) for r in rows]
         badax = [r for r in proof_rows if not r["ok"]]
         if badax:
             raise coqrun.CoqError(f"theorems depending on axioms outside the allow-list: {badax}")
